@@ -49,6 +49,12 @@ ClimbRhs(T, toks, rhs, prec, i) ==
        ELSE <<rhs, i>>
 ClimbTree(T, toks) == ClimbRec(T, toks, [t |-> "n", p |-> 1], 0, 2)[1]
 
+\* ---- registration: a table is built by a SEQUENCE of registrations (PrattParser::op inserts every member of
+\* the chain into a map, a ConstPrattParser is searched from the back): when a rule is registered more than once
+\* the LAST registration is the one in force.  R is a sequence of [rule, affix, lvl] in registration order.
+LastReg(R, r) == CHOOSE i \in DOMAIN R : R[i].rule = r /\ \A j \in DOMAIN R : R[j].rule = r => j <= i
+Registered(R, K) == [r \in 1..K |-> [affix |-> R[LastReg(R, r)].affix, lvl |-> R[LastReg(R, r)].lvl]]
+
 \* tables the deprecated climber is specified for: infix only, one associativity per level
 ClimberTable(T) ==
   /\ \A k \in DOMAIN T : T[k].affix \in {"inl", "inr"}
